@@ -74,12 +74,43 @@ def run_verus(path, extra=(), timeout=600):
 
 
 def _verify_one(repo, workdir, name, mode, roots, tag):
-    """one micro-unit: closure of `roots`, one verus run"""
+    """one micro-unit with dependency completion: when the front end reports a call to a method/function that is not in
+    the unit but IS under contract in another item (a refactored body may call a sibling the deps= list did not foresee),
+    that item is added and the unit is rebuilt - at most three rounds"""
+    extra = []
+    for _ in range(4):
+        res = _verify_once(repo, workdir, name, mode, roots, tag, extra)
+        r = res[0]
+        if extra and r.status == 'failed':
+            # the body calls a sibling that the contracts were not engineered for: a proof that does not go through over an
+            # automatically added callee contract means "needs contract", not "bug" - exactly what the front-end error meant
+            # before completion.  (Concrete failures still come from the stand-ins / Kani on the real crate.)
+            r.reason = 'function now calls %s, outside its verified dependency set; the proof over the added contract(s) did not go through: %s' % (
+                ', '.join(extra), '; '.join(f['obligation'][-120:] for f in r.failed[:2]))
+            r.status, r.failed = 'undecided', []
+            return res
+        if r.status != 'undecided' or 'verus front-end' not in (r.reason or ''):
+            return res
+        ex = Extractor(repo, os.path.join(ROOT, 'contracts'), mode)
+        added = False
+        for m in re.finditer(r"no (?:method|function or associated item) named `(\w+)` found for (?:mutable |shared )?(?:reference|struct|type parameter|enum) `&?(?:mut )?(\w+)|cannot find function `(\w+)`", r.stderr or ''):
+            fn, hint = (m.group(1), m.group(2)) if m.group(1) else (m.group(3), None)
+            for it in ex.providers(fn, hint):
+                if it not in extra and it not in roots:
+                    extra.append(it)
+                    added = True
+        if not added:
+            return res
+    return res
+
+
+def _verify_once(repo, workdir, name, mode, roots, tag, extra=()):
+    """one micro-unit: closure of `roots` (+ completed dependencies), one verus run"""
     r = UnitResult()
     r.name, r.mode = name, mode
     ex = Extractor(repo, os.path.join(ROOT, 'contracts'), mode)
     try:
-        text, meta, linemap, names = ex.build_unit(roots)
+        text, meta, linemap, names = ex.build_unit(roots, extra)
     except (LostAnchor, Unsupported) as e:
         r.status, r.reason = 'undecided', 'extraction (%s): %s' % (tag, e)
         return r, None, None, None
